@@ -10,11 +10,12 @@ import struct
 import engine
 import gen
 import vcommon
-from ovnitrace import (MAGIC, META_VERSION, STREAM_VERSION, Stream, ev_bytes, i32, run_tool, u32, u64,
+from ovnitrace import (MAGIC, META_VERSION, STREAM_VERSION, Stream, ev_bytes, i32, run_emu, run_tool, u32, u64,
                        verdict, write_trace)
 
 TOOLS = ("ovniemu", "ovnidump", "ovnitop", "ovnisort")
 TIMEOUT = 5
+RETRY_TIMEOUT = 60
 HOOK_ENV = "OVNI_VERIF_HEAPBUF"
 
 
@@ -218,7 +219,18 @@ def run_one(bdir, tool, tracedir, heapbuf=False):
     if heapbuf and tool != "ovnisort":
         envx[HOOK_ENV] = "1"
     rc, out, err = run_tool(os.path.join(bdir, "src/emu", tool), args, timeout=TIMEOUT, env_extra=envx)
+    if rc == "timeout":
+        # a loaded machine is not a hang: only a run that also exceeds the long limit counts
+        rc, out, err = run_tool(os.path.join(bdir, "src/emu", tool), args, timeout=RETRY_TIMEOUT, env_extra=envx)
     return rc, out, err
+
+
+def run_emu_patient(bdir, tracedir, opts):
+    """run_emu with the short limit, retried once with the long one."""
+    rc, err = run_emu(bdir, tracedir, opts, timeout=TIMEOUT)
+    if rc == "timeout":
+        rc, err = run_emu(bdir, tracedir, opts, timeout=RETRY_TIMEOUT)
+    return rc, err
 
 
 FRAME = re.compile(r"#\d+ 0x[0-9a-f]+ in (\w+) .*?/src/(?:emu|rt)/([\w/.]+):\d+")
